@@ -90,6 +90,11 @@ def mtl_backward(
     if len(features) == 0:
         raise ValueError("`features` cannot be empty.")
 
+    # Materialize the parameters first: they can be one-shot iterables (e.g. `module.parameters()`),
+    # which would otherwise be exhausted by the overlap check.
+    shared_params = list(shared_params)
+    tasks_params = [list(task_params) for task_params in tasks_params]
+
     _check_no_overlap(shared_params, tasks_params)
     _check_losses_are_scalar(losses)
 
@@ -97,9 +102,6 @@ def mtl_backward(
         raise ValueError("`losses` cannot be empty")
     if len(losses) != len(tasks_params):
         raise ValueError("`losses` and `tasks_params` should have the same size.")
-
-    shared_params = list(shared_params)
-    tasks_params = [list(task_params) for task_params in tasks_params]
 
     # Task-specific transforms. Each of them computes and accumulates the gradient of the task's
     # loss w.r.t. the task's specific parameters, and computes and backpropagates the gradient of
